@@ -46,6 +46,8 @@ type fsess struct {
 	hsNext      int // next height to announce
 	wild        bool
 	forged      bool
+	big         bool // scale: long connect queues, large chunks, many peers
+	maxConnQ    int
 
 	ops       []string
 	fetches   []*outFetch
@@ -103,6 +105,9 @@ func (s *fsess) dump() string {
 	}
 	for _, c := range st.ConnQ {
 		connq = append(connq, fmt.Sprintf("%d:%d", c.FirstNo, len(c.Blocks)))
+	}
+	if len(st.ConnQ) > s.maxConnQ {
+		s.maxConnQ = len(st.ConnQ)
 	}
 	cur := "-"
 	if st.Cur != nil {
@@ -238,6 +243,19 @@ func newFsess(run *vh.Run, idx int) *fsess {
 	if rng.Intn(6) == 0 {
 		n = 1 + rng.Intn(3)
 	}
+	// scale: the shipped configuration has 100-block chunks, 5 tasks, 10 pending connect tasks, hash sets of 1000
+	bigEvery := 40
+	if run.Thorough() {
+		bigEvery = 8
+	}
+	prod := run.Thorough() && idx%1500 == 7
+	s.big = idx%bigEvery == 3 || prod
+	if s.big {
+		n = 30 + rng.Intn(120)
+	}
+	if prod {
+		n = 1300 + rng.Intn(400)
+	}
 	s.target = s.anc + n
 	s.remote = newChain(nil, -1, s.target+2, int64(5000+2*idx))
 	s.alt = newChain(s.remote, s.anc, s.target+2, int64(5001+2*idx))
@@ -250,6 +268,17 @@ func newFsess(run *vh.Run, idx int) *fsess {
 	s.hsNext = s.anc + 1
 	s.wild = rng.Intn(10) == 0
 	mfs, mft, mpc := 1+rng.Intn(4), 1+rng.Intn(4), 1+rng.Intn(4)
+	if s.big {
+		mfs, mft, mpc = 1+rng.Intn(24), 3+rng.Intn(6), 6+rng.Intn(9)
+		s.npeers = 3 + rng.Intn(6)
+		s.hashReq = 8 + rng.Intn(33)
+		s.wild = false
+		run.Count("fetch-session:big")
+	}
+	if prod {
+		mfs, mft, mpc, s.hashReq, s.npeers = 100, 5, 10, 1000, 5
+		run.Count("fetch-session:shipped-config")
+	}
 	ancBlk := s.remote.blocks[s.anc]
 
 	s.req = &recReq{}
@@ -496,7 +525,11 @@ func (s *fsess) randomPhase(steps int) {
 					kind = 0 // keep the id-forging class rare
 				}
 			}
-			s.answer(rng.Intn(len(s.fetches)), kind)
+			which := rng.Intn(len(s.fetches))
+			if s.big && len(s.fetches) > 1 && rng.Intn(4) != 0 {
+				which = 1 + rng.Intn(len(s.fetches)-1) // the oldest request stays unanswered: the connect queue fills up behind it
+			}
+			s.answer(which, kind)
 		case r < 14:
 			if faulty && len(s.fetches) > 0 { // drop: the request is never answered
 				i := rng.Intn(len(s.fetches))
@@ -525,6 +558,28 @@ func (s *fsess) randomPhase(steps int) {
 		}
 		if schedAfter && !s.done() {
 			s.sched()
+		}
+	}
+}
+
+// stallPhase: the oldest request stays unanswered while every other one is answered honestly: the connect
+// queue fills up behind the missing chunk until the pending-connect limit stops the scheduler.
+func (s *fsess) stallPhase() {
+	for round := 0; round < 200 && !s.done(); round++ {
+		s.nextHashSet()
+		s.sched()
+		if len(s.fetches) <= 1 {
+			if s.hsNext > s.target {
+				return
+			}
+			st := s.bf.VerifC17Dump()
+			if len(st.Pending) > 0 || st.HfqLen > 0 {
+				return // the scheduler holds back: the limit is reached
+			}
+			continue
+		}
+		for len(s.fetches) > 1 && !s.done() {
+			s.answer(1, 0)
 		}
 	}
 }
@@ -581,7 +636,14 @@ func fetchSessions(run *vh.Run, n int) {
 			run.Count("fetch-session:end=" + s.stopClass)
 			continue
 		}
-		s.randomPhase(10 + run.Rng.Intn(60))
+		steps := 10 + run.Rng.Intn(60)
+		if s.big {
+			steps = 60 + run.Rng.Intn(400)
+			if run.Rng.Intn(2) == 0 {
+				s.stallPhase()
+			}
+		}
+		s.randomPhase(steps)
 		if !s.wild && !s.forged && !s.done() {
 			s.fairPhase()
 		}
@@ -598,6 +660,12 @@ func fetchSessions(run *vh.Run, n int) {
 		}
 		if s.forged {
 			run.Count("fetch-session:forged-header")
+		}
+		switch {
+		case s.maxConnQ > 8:
+			run.Count("fetch-session:connq>8")
+		case s.maxConnQ > 4:
+			run.Count("fetch-session:connq>4")
 		}
 	}
 }
